@@ -33,5 +33,5 @@ def run(ctx):
     # quick: Python only (indentation blocks are the delicate case; brace languages are covered by the mutants and by thorough) (C, C++ and C# share all pairing code; TypeScript shares JavaScript's arrow pattern); thorough: all seven, N=3
     plan = {l: 2 for l in ("Python",)} if ctx.quick() else {l: 3 for l in ("Python", "C", "JavaScript", "Java", "TypeScript", "Cpp", "CSharp")}
     jobs += soup_common.soup_jobs(ctx, "wellformed", plan, framed=True, tolerate=AMBIG)
-    jobs += soup_common.mutation_jobs(ctx, ["two", "stmt-mix", "nested-middle", "nested-two", "class-methods"] if ctx.quick() else None, tolerate=AMBIG)
+    jobs += soup_common.mutation_jobs(ctx, ["two", "stmt-mix", "nested-middle", "nested-two", "class-methods", "x-arrow-then-fn", "x-arrow-encloses-fn"] if ctx.quick() else None, tolerate=AMBIG)
     ctx.run_xh(jobs)
